@@ -225,9 +225,9 @@ type loopCollector struct {
 	over     tv
 	elem     *tSym
 	idxObj   types.Object
-	appends  map[*tcell][]tv  // outer slice tcell -> appended terms (per iteration)
-	idxSets  map[*tcell]tv    // outer slice tcell -> value stored at [loop index]
-	mapSets  map[*tcell][2]tv // outer map tcell -> key, val
+	appends  map[*tcell][]tv        // outer slice tcell -> appended terms (per iteration)
+	idxSets  map[*tcell]tv          // outer slice tcell -> value stored at [loop index]
+	mapSets  map[*tcell][2]tv       // outer map tcell -> key, val
 	prior    map[*tcell][]*tMapEach // maps already filled by earlier loops: this loop adds a part
 	priorLit map[*tcell]*tMapLit    // literal entries the map already had
 	sorted   bool
